@@ -1,6 +1,6 @@
 import Exetera.Lemmas.ExportApi
 import Exetera.Lemmas.CsvParse
-import Exetera.Lemmas.ExportPandas
+import Exetera.Lemmas.ExportPandasRows
 /-!
   C18 — CSV / pandas export writes exactly the selected rows and columns.
 
@@ -208,26 +208,18 @@ example :=
 example : parse .exetera (render [[['s'], ['n']], [[' ', 'x'], ['1']], [[' ', 'y', ','], ['2']], [['a', '\r', 'b'], ['3']]])
     = [[['s'], ['n']], [['x'], ['1']], [[' ', 'y', ','], ['2']], [['a', '\r', 'b'], ['3']]] := by decide
 
-/- FULL STATEMENT (not provable: false as found, `Witness.C18.nc18b_to_pandas_refuses_csv_filters`):
-     "to_pandas returns columns equal to the field data under the same filters [as to_csv]", i.e. the conclusion below with
-     `flt` the content of *any* filter `to_csv` accepts (a boolean Field, an array shorter or longer than the frame, missing
-     entries meaning False) instead of `hflt : PdFilterOk N rf flt`. What is missing: numpy refuses a Field as an index and a
-     boolean index of another length (NC18b). -/
-/-- **to_pandas_eq_partial**: for a valid, non-empty column selection whose columns all have `N` rows and a row filter that is absent or a
-    boolean list / array of length `N`, `to_pandas` ends normally; its columns are the distinct selected names in order of first
-    occurrence, and each column is `[x_i | i < N, filter i]` of the frame's column of that name.
-    (A Field as filter, or a filter of another length, is refused by numpy: finding NC18b, `Witness.C18`.) -/
-theorem to_pandas_eq_partial (f : Frame) (rf : PdFilter) (cf : ColFilter) (sel : List Export.Cell) (flt : Option (List Bool)) (N : Nat)
+/-- the part of `to_pandas` both variants share: the columns pass the length check and every column is mapped by `app` -/
+theorem to_pandas_core (f : Frame) (cf : ColFilter) (sel : List Export.Cell) (flt : Option (List Bool)) (N : Nat)
+    (app : List Export.Cell → Except Err (List Export.Cell))
     (hsel : Selects f cf sel) (hne : sel ≠ []) (hlen : ∀ c ∈ f, c.name ∈ sel → c.data.length = N)
-    (hflt : PdFilterOk N rf flt) :
-    ∃ cols, toPandas f rf cf = .ok cols ∧ cols.map (·.1) = firstOccurrences [] sel ∧
-      ∀ p ∈ cols, ∃ c ∈ f, c.name = p.1 ∧ p.2 = filterCol c.data flt := by
+    (happ : ∀ data : List Export.Cell, data.length = N → app data = .ok (filterCol data flt)) :
+    pdChecks f cf = .ok () ∧
+    ∃ cols, pdLoop f app cf = .ok cols ∧ cols.map (·.1) = firstOccurrences [] sel ∧ ∀ p ∈ cols, GoodCol f flt p := by
   have hall : AllLen f N sel := by
     intro n hn
     obtain ⟨c, h1, h2, h3⟩ := get?_of_mem_keys f n (hsel.subset n hn)
     exact ⟨c, h1, h3, h2, hlen c h3 (by rw [h2]; exact hn)⟩
-  obtain ⟨out, h1, h2, h3⟩ := pdCollect_ok f rf flt N hflt sel [] hall (by simp)
-  refine ⟨out, ?_, by simpa using h2, h3⟩
+  obtain ⟨out, h1, h2, h3⟩ := pdCollect_ok f app flt N happ sel [] hall (by simp)
   have hcheck : pdCheck f sel = .ok () := by
     cases hs : sel with
     | nil => exact absurd hs hne
@@ -236,16 +228,116 @@ theorem to_pandas_eq_partial (f : Frame) (rf : PdFilter) (cf : ColFilter) (sel :
       simp only [pdCheck, List.getElem?_cons_zero, Frame.getE, hc0, hl0]
       exact pdCheckLengths_ok f N _ (hs ▸ hall)
   cases hsel with
-  | none => simp only [toPandas, hcheck, h1]
-  | one n hn => simp only [toPandas, h1]
-  | many _ _ => simp only [toPandas, hcheck, h1]
+  | none => exact ⟨by simp only [pdChecks, hcheck], out, by simp only [pdLoop, h1], by simpa using h2, h3⟩
+  | one n hn => exact ⟨rfl, out, by simp only [pdLoop, h1], by simpa using h2, h3⟩
+  | many _ _ => exact ⟨by simp only [pdChecks, hcheck], out, by simp only [pdLoop, h1], by simpa using h2, h3⟩
+
+/-- **to_pandas_eq** ("to_pandas returns columns equal to the field data under the same filters"; with the fix NC18b).
+    For every frame, every valid non-empty column selection whose columns all have `N` rows, and EVERY row filter the validator
+    of `to_csv` accepts (`hflt` is the very hypothesis of `to_csv_rows`: a boolean Field, a boolean or integer array — of any
+    length — or, for `to_pandas`, a Python list): `to_pandas` ends normally; its columns are the distinct selected names in
+    order of first occurrence; each is `[x_i | i < N, keep flt i]` of the frame's column of that name, where `keep flt` is the
+    row selection of `exportRows`, the rows `to_csv` writes (`to_csv_rows`). -/
+theorem to_pandas_eq (f : Frame) (pf : PdFilter) (cf : ColFilter) (sel : List Export.Cell) (flt : Option (List Bool)) (N : Nat)
+    (hsel : Selects f cf sel) (hne : sel ≠ []) (hlen : ∀ c ∈ f, c.name ∈ sel → c.data.length = N)
+    (hflt : validateRowFilter pf.toRowFilter = .ok flt) :
+    ∃ cols, toPandas .repaired f pf cf = .ok cols ∧ cols.map (·.1) = firstOccurrences [] sel ∧
+      ∀ p ∈ cols, ∃ c, f.get? p.1 = some c ∧ c ∈ f ∧ c.name = p.1 ∧ p.2 = filterCol c.data flt := by
+  obtain ⟨hchk, cols, hloop, hnames, hgood⟩ := to_pandas_core f cf sel flt N (fun data => .ok (pdApply flt data)) hsel hne hlen
+    (fun data _ => by rw [pdApply_eq_filterCol])
+  exact ⟨cols, by simp only [toPandas, hchk, hflt, hloop], hnames, hgood⟩
+
+/-- non-vacuity: a Field shorter than the frame, an integer array longer than the frame, a list, a duplicated selection -/
+example :=
+  to_pandas_eq [⟨['s'], [['a'], ['b'], ['c']]⟩, ⟨['n'], [['1'], ['2'], ['3']]⟩] (.field true [false, true])
+    (.many [['n'], ['s'], ['n']]) [['n'], ['s'], ['n']] (some [false, true]) 3
+    (Selects.many _ (by decide) (by decide)) (by decide) (by decide) rfl
 
 example :=
-  to_pandas_eq_partial [⟨['s'], [['a'], ['b'], ['c']]⟩, ⟨['n'], [['1'], ['2'], ['3']]⟩] (.list [true, false, true])
+  to_pandas_eq [⟨['s'], [['a'], ['b'], ['c']]⟩, ⟨['n'], [['1'], ['2'], ['3']]⟩] (.intArray [1, 0, 2, 1, 1])
+    .none [['s'], ['n']] (some [true, false, false, true, true]) 3 Selects.none (by decide) (by decide) rfl
+
+example : toPandas .repaired [⟨['s'], [['a'], ['b'], ['c']]⟩, ⟨['n'], [['1'], ['2'], ['3']]⟩] (.field true [false, true])
+    (.many [['n'], ['s'], ['n']]) = .ok [(['n'], [['2']]), (['s'], [['b']])] := by decide
+
+example : toPandas .repaired [⟨['s'], [['a'], ['b'], ['c']]⟩] (.intArray [1, 0, 2, 1, 1]) .none = .ok [(['s'], [['a']])] ∧
+    toPandas .repaired [⟨['s'], [['a'], ['b'], ['c']]⟩] (.field false [true]) .none
+      = .error (.valueError "'row_filter' must be boolean field") := by decide
+
+/-- **to_pandas_agrees_with_to_csv**: `to_pandas` and `to_csv` called with the SAME `row_filter` object and the same list of
+    distinct column names (not containing the filter's own column, which only `to_csv` drops) select the same rows: writing the
+    rows of the returned pandas frame — all of them, `exportRows … none` — under the header gives exactly the file `to_csv`
+    writes, for every `writerow` and every `chunk_row_size ≥ 1`. -/
+theorem to_pandas_agrees_with_to_csv (writerow : List Export.Cell → List Char) (f : Frame) (rf : RowFilter)
+    (names : List Export.Cell) (crs : Int) (flt : Option (List Bool)) (N : Nat)
+    (hcrs : 0 < crs) (hne : names ≠ []) (hnd : names.Nodup) (hsub : ∀ n ∈ names, n ∈ f.keys)
+    (hlen : ∀ c ∈ f, c.name ∈ names → c.data.length = N)
+    (hflt : validateRowFilter rf = .ok flt) (hown : dropFilterColumn rf names = names) :
+    ∃ cols, toPandas .repaired f (.ofCsv rf) (.many names) = .ok cols ∧ cols.map (·.1) = names ∧
+      toCsv writerow f rf (.many names) crs =
+        .ok (writerow names ++ (exportRows (cols.map (·.2)) Option.none).flatMap writerow) := by
+  have hsel : Selects f (.many names) names := Selects.many _ hne hsub
+  obtain ⟨cols, hpd, hnames, hgood⟩ := to_pandas_eq f (.ofCsv rf) (.many names) names flt N hsel hne hlen
+    (by rw [validate_ofCsv]; exact hflt)
+  rw [firstOccurrences_nodup names [] hnd (by simp), List.nil_append] at hnames
+  obtain ⟨fields, hget, hfn, hmem, hcsv⟩ := to_csv_rows writerow f rf (.many names) crs names flt hcrs hsel hflt
+    (by rw [hown]; exact hne)
+  rw [hown] at hget hfn hcsv
+  refine ⟨cols, hpd, hnames, ?_⟩
+  rw [hcsv, goodCols_eq f flt names cols fields hnames (getAll_get? f names fields hget) hgood]
+  have hmap : fields.map (fun c => filterCol c.data flt) = (fields.map (·.data)).map (fun c => filterCol c flt) := by
+    simp [List.map_map]
+  rw [hmap, exportRows_filterCol (fields.map (·.data)) flt N]
+  · intro h
+    have : fields = [] := by simpa using h
+    rw [this] at hfn
+    exact hne hfn.symm
+  · intro d hd
+    obtain ⟨c, hc, rfl⟩ := List.mem_map.mp hd
+    refine hlen c (hmem c hc) ?_
+    rw [← hfn]
+    exact List.mem_map.mpr ⟨c, hc, rfl⟩
+
+/-- non-vacuity: a memory Field one entry short, an unordered selection, chunk size 2 -/
+example :=
+  to_pandas_agrees_with_to_csv renderRow [⟨['s'], [['a'], ['b', ','], ['c']]⟩, ⟨['n'], [['1'], ['2'], ['3']]⟩]
+    (.field Option.none false true [false, true]) [['n'], ['s']] 2 (some [false, true]) 3
+    (by decide) (by decide) (by decide) (by decide) (by decide) rfl rfl
+
+example : toCsv renderRow [⟨['s'], [['a'], ['b', ','], ['c']]⟩, ⟨['n'], [['1'], ['2'], ['3']]⟩]
+    (.field Option.none false true [false, true]) (.many [['n'], ['s']]) 2
+      = .ok ['n', ',', 's', '\n', '2', ',', '"', 'b', ',', '"', '\n'] ∧
+    toPandas .repaired [⟨['s'], [['a'], ['b', ','], ['c']]⟩, ⟨['n'], [['1'], ['2'], ['3']]⟩]
+      (.ofCsv (.field Option.none false true [false, true])) (.many [['n'], ['s']])
+      = .ok [(['n'], [['2']]), (['s'], [['b', ',']])] := by decide
+
+/- The statement below was all that held before the fix NC18b (`Witness.C18.nc18b_to_pandas_refuses_csv_filters` is the as-found
+   counterexample to the full one); it is kept, and now holds for BOTH variants of the model. The full statement is `to_pandas_eq`. -/
+/-- **to_pandas_eq_partial**: for a valid, non-empty column selection whose columns all have `N` rows and a row filter that is absent or a
+    boolean list / array of length `N`, `to_pandas` — as found or repaired — ends normally; its columns are the distinct selected
+    names in order of first occurrence, and each column is `[x_i | i < N, filter i]` of the frame's column of that name. -/
+theorem to_pandas_eq_partial (v : Variant) (f : Frame) (rf : PdFilter) (cf : ColFilter) (sel : List Export.Cell)
+    (flt : Option (List Bool)) (N : Nat)
+    (hsel : Selects f cf sel) (hne : sel ≠ []) (hlen : ∀ c ∈ f, c.name ∈ sel → c.data.length = N)
+    (hflt : PdFilterOk N rf flt) :
+    ∃ cols, toPandas v f rf cf = .ok cols ∧ cols.map (·.1) = firstOccurrences [] sel ∧
+      ∀ p ∈ cols, ∃ c ∈ f, c.name = p.1 ∧ p.2 = filterCol c.data flt := by
+  cases v with
+  | repaired =>
+    obtain ⟨cols, h1, h2, h3⟩ := to_pandas_eq f rf cf sel flt N hsel hne hlen (validate_of_pdFilterOk hflt)
+    exact ⟨cols, h1, h2, fun p hp => by obtain ⟨c, _, hc, hn, he⟩ := h3 p hp; exact ⟨c, hc, hn, he⟩⟩
+  | asFound =>
+    obtain ⟨hchk, cols, hloop, hnames, hgood⟩ := to_pandas_core f cf sel flt N (pdApplyAsFound rf) hsel hne hlen
+      (fun data hd => pdApplyAsFound_ok data rf flt (by rw [hd]; exact hflt))
+    exact ⟨cols, by simp only [toPandas, hchk, hloop], hnames,
+      fun p hp => by obtain ⟨c, _, hc, hn, he⟩ := hgood p hp; exact ⟨c, hc, hn, he⟩⟩
+
+example :=
+  to_pandas_eq_partial .asFound [⟨['s'], [['a'], ['b'], ['c']]⟩, ⟨['n'], [['1'], ['2'], ['3']]⟩] (.list [true, false, true])
     (.many [['n'], ['s'], ['n']]) [['n'], ['s'], ['n']] (some [true, false, true]) 3
     (Selects.many _ (by decide) (by decide)) (by decide) (by decide) (PdFilterOk.list _ rfl)
 
-example : toPandas [⟨['s'], [['a'], ['b'], ['c']]⟩, ⟨['n'], [['1'], ['2'], ['3']]⟩] (.list [true, false, true])
+example : toPandas .asFound [⟨['s'], [['a'], ['b'], ['c']]⟩, ⟨['n'], [['1'], ['2'], ['3']]⟩] (.list [true, false, true])
     (.many [['n'], ['s'], ['n']]) = .ok [(['n'], [['1'], ['3']]), (['s'], [['a'], ['c']])] := by decide
 
 end Exetera.Props.C18
